@@ -40,9 +40,8 @@ def typedFields (ctx : String) (t : Typed) : Fields :=
   [(ctx ++ ".type", toString t.ty), (ctx ++ ".data", hexOfBytes t.data)]
     ++ (match t.handle with | some h => [(ctx ++ ".structure_tag", toString h)] | none => [])
 
-def ncpFields (pre : String) (_svcLarge : Bool) (n : Nat) : Fields :=
-  -- `Connection_decode` does not pass the service's size on: each side is deduced from its own value
-  let large := decide (n > 0xFFFF)
+def ncpFields (pre : String) (large : Bool) (n : Nat) : Fields :=
+  -- the service code (0x54 / 0x5B) says which layout both directions use (repo fix dc32001)
   let p := decodeNcp large n
   [(pre ++ ".NCP", toString n), (pre ++ ".large", if large then "1" else "0"), (pre ++ ".size", toString p.size),
    (pre ++ ".variable", toString p.var), (pre ++ ".priority", toString p.prio), (pre ++ ".type", toString p.kind),
